@@ -31,7 +31,7 @@ RULE = ('Published histories v0..vn (n <= 5; Packages-shaped paragraphs incl. no
         'Index missing / unparsable / incomplete, full file missing, open/.new fails, k-th write fails for every k, close '
         'fails, rename vetoed, OSError at every executed line of the four functions}.  Every (scenario, fault, position) is '
         'one evaluation.  Non-trivial: >= 2 patches to apply, or a fault that actually fired on the taken path.')
-ASSUMPTIONS = ['every published version is a list of newline-terminated lines none of which is a lone "." (an ed script cannot carry either)',
+ASSUMPTIONS = ['every published version is a list of newline-terminated lines none of which is a lone "." (an ed script cannot carry either); lines may contain FF, VT, FS/GS/RS, NEL, U+2028/9 (not CR: text-mode file I/O translates it)',
                '"Index unusable" = missing or syntactically unparsable; for an Index that parses but is semantically incomplete only the '
                'safety half (nothing corrupted, no .new left) is demanded',
                'faults are injected at the I/O boundary from the harness (module-level open shadowing the builtin for *.new, audit-hook '
@@ -66,6 +66,9 @@ def gen_para(r, i):
         out.append('Description: \xe9 x%d\n' % r.randint(0, 99))
         if r.random() < .5:
             out.append(' more 漢 text\n')
+        if r.random() < .25:
+            # characters Python's str.splitlines() treats as line boundaries but files and ed scripts do not
+            out.append(' form%sfeed %d\n' % (r.choice(['\x0c', '\x0b', '\x1c', '\x1d', '\x1e', '\x85', '\u2028', '\u2029']), r.randint(0, 99)))
             if r.random() < .3:
                 out.append(' .\n')
                 out.append(' 1a\n')
